@@ -55,6 +55,19 @@ theorem libCore_step (ops : FOps) (s : Schema2) {L : Lib2} (h : LibCore s L) (c 
       rcases foreign_step ops s L c t u with e | e <;> rw [e]
       · exact h
       · exact libCore_crateCall h _ (by simpa [crateMem, Call.admissible] using ha)
+    case plantPrepare t =>
+      simp only [step]
+      split
+      · rename_i hl
+        exact { h with
+          prep := by
+            intro r hr t' ht'
+            rcases List.mem_append.mp hr with hr | hr
+            · exact h.prep r hr t' ht'
+            · simp only [List.mem_singleton] at hr; subst hr
+              simp only [Option.some.injEq] at ht'; subst ht'
+              exact (find_isSome_iff L.tdb _).mp hl }
+      · exact h
     all_goals (simp only [step]; rw [m2_bind_pure_fst])
     case createTrack x => exact libCore_trackCall h ops (.create x) (fun id e => by cases e)
     case removeTrack t => exact libCore_removeTrack h t
@@ -152,6 +165,11 @@ theorem failed_unchanged (ops : FOps) (s : Schema2) {L : Lib2} (hI : LibCore s L
         simp only [hv, if_true] at h
         rw [m2_bind_pure_fst]
         exact crateCall_failed L _ (bind_pure_notOk _ _ L h)
+      · rfl
+    case plantPrepare t =>
+      simp only [step] at h ⊢
+      split
+      · rename_i hv; simp only [hv, if_true] at h; exact absurd rfl (h _)
       · rfl
     all_goals (simp only [step] at h ⊢; rw [m2_bind_pure_fst]; have h' := bind_pure_notOk _ _ L h)
     case createTrack x => exact trackCall_failed hI ops _ h'
